@@ -22,11 +22,21 @@ ASSUMPTIONS = ["ecdsa fallback backend"]
 H = 1 << 31
 
 
+_OBJ = {}
+
+
 def mk(case):
+    """One BIP85 object per master key, REUSED for every request on that master (each result must still depend on the
+    request alone); case['fresh'] forces a new object."""
     from btc_hd_wallet.bip85 import BIP85DeterministicEntropy
-    xk = rb32.XKey(case["k"], None, case["c"])
-    node = bridge.mk_node(xk, False, case.get("form", "ctor"))
-    return xk, BIP85DeterministicEntropy(master_node=node), node
+    key = (case["k"], case["c"], case.get("form", "ctor"))
+    if case.get("fresh") or key not in _OBJ:
+        if len(_OBJ) > 64:
+            _OBJ.clear()
+        xk = rb32.XKey(case["k"], None, case["c"])
+        node = bridge.mk_node(xk, False, case.get("form", "ctor"))
+        _OBJ[key] = (xk, BIP85DeterministicEntropy(master_node=node), node)
+    return _OBJ[key]
 
 
 class PathTap:
